@@ -60,12 +60,16 @@ def run(ctx, n_pairs=None, rng_name="main", max_seconds=None):
     K.check_reflect_tables(ctx, ctx.rng(rng_name + "/reflect"), 6 if ctx.thorough else 2)
     n = n_pairs or (1500 if ctx.thorough else 90)
     pending = []
+    if rng_name == "main":
+        for label, a, b in G.battery_pairs():
+            ctx.hist("pair.battery", label)
+            K.run_pair(ctx, a, b, True, True, True, pending)
     for i in range(n):
         odd = rng.random() < 0.25
         if t_end and time.time() > t_end:
             ctx.note("search stopped after %d pairs (time cap %ss)" % (i, max_seconds))
             break
-        a, b = G.gen_pair(rng, odd=odd, funcs=True)
+        a, b = G.gen_pair(rng, odd=odd, funcs=True, computed=0.08)
         ctx.hist("pair.class", "odd" if odd else "plain")
         ctx.hist("pair.tables", "%d->%d" % (len(a["tables"]), len(b["tables"])))
         if i < 3:
@@ -98,6 +102,9 @@ def classify(failure):
         # batch recreate re-emits a stored default like 'a' || 'b' (from text("('a' || 'b')")) without parentheses
         if "default-expr-quotedlooking" in tags and "syntax error" in what and "batch:True" in tags:
             return "C06-F9q"
+        # batch recreate + create_index([literal_column('a DESC'), ...]) in one block: the new index's column is looked up by name
+        if "index-desc" in tags and "exc:KeyError" in tags and " DESC'" in what and "batch:True" in tags:
+            return "C06-DESCIX"
         # batch recreate of a table none of whose columns survives: INSERT .. SELECT without columns
         if "table-without-common-column" in tags and "exc:KeyError" in tags and "insert_from_select" in what and "batch:True" in tags:
             return "C06-EMPTYCOPY"
